@@ -135,6 +135,7 @@ def make_enabled(tier, max_writers):
                         ops.append(["new", f, p, s])
         for i, w in enumerate(model["writers"]):
             ops.append(["write", i]); ops.append(["write_scenario", i])
+            ops.append(["write_checked", i])    # write_to_file with check_validity=True: the same file as without the check
             ops.append(["write_fails", i])      # a write into a directory that does not exist: it raises, and must leave nothing behind in the writer
             if any(ff == w[0] for ff in model.get("file_fmts", [])):
                 ops.append(["write_skip", i]); ops.append(["write_always", i])
@@ -176,13 +177,16 @@ def step(world, model, op):
                 except Exception:
                     obs["failed"] = True
                 obs.update(path=os.path.join(world.dir, "no-such-directory"), fmt=fmt, prec=prec, scen=scen, method="write_to_file")
-            elif k in ("write", "write_scenario"):
+            elif k in ("write", "write_scenario", "write_checked"):
                 fn = os.path.join(world.dir, f"f{m['nfiles']}.{fmt}")
-                method = "write_to_file" if k == "write" else "write_scenario_to_file"
-                getattr(w, method)(fn, OverwriteExistingFile.ALWAYS)
+                method = "write_to_file" if k != "write_scenario" else "write_scenario_to_file"
+                if k == "write_checked":
+                    w.write_to_file(fn, OverwriteExistingFile.ALWAYS, check_validity=True)
+                else:
+                    getattr(w, method)(fn, OverwriteExistingFile.ALWAYS)
                 world.files.append((fn, fmt))
                 m["nfiles"] += 1; m["file_fmts"].append(fmt)
-                m["writers"][i][3 if k == "write" else 4] += 1
+                m["writers"][i][3 if k != "write_scenario" else 4] += 1
                 obs.update(path=fn, fmt=fmt, prec=prec, scen=scen, method=method)
             elif k in ("write_skip_nosuffix", "write_nosuffix_beside"):
                 base = os.path.join(world.dir, f"bare{len(os.listdir(world.dir))}")
